@@ -3,14 +3,18 @@
 // release in any order over up to two outstanding requests, with a transport
 // (the send callback) that accepts or rejects per plan.
 #include "worlds/common.hpp"
+#include "kernel/simio.hpp"
+#include <fcntl.h>
+#include <poll.h>
+#include <unistd.h>
 
 using namespace sim;
 using namespace mpt;
 
-enum { OP_ID, OP_ARM, OP_REPLY, OP_DEFER, OP_DREPLY, OP_DRELEASE, OP_ADDREF, OP_UNREF, OP_NEWCTX };
-static const char *const OPS[] = {"ID", "ARM", "REPLY", "DEFER", "DEFERRED_REPLY", "RELEASE_HANDLE", "ADDREF_CTX", "UNREF_CTX", "NEW_CTX", 0};
-enum { FL_NONE, FL_ALLOC, FL_REJECT };
-static const char *const FAULTS[] = {"none", "allocfail", "reject", 0};
+enum { OP_ID, OP_ARM, OP_REPLY, OP_DEFER, OP_DREPLY, OP_DRELEASE, OP_ADDREF, OP_UNREF, OP_NEWCTX, OP_REQ, OP_DELIVER, OP_SERVE, OP_FLUSH };
+static const char *const OPS[] = {"ID", "ARM", "REPLY", "DEFER", "DEFERRED_REPLY", "RELEASE_HANDLE", "ADDREF_CTX", "UNREF_CTX", "NEW_CTX", "REQUEST", "DELIVER", "SERVE", "FLUSH", 0};
+enum { FL_NONE, FL_ALLOC, FL_REJECT, FL_SHORT, FL_EAGAIN };
+static const char *const FAULTS[] = {"none", "allocfail", "reject", "short", "eagain", 0};
 
 struct Req { uint64_t id; unsigned width; int accepted = 0; int sends = 0; bool transport_lost = false; bool closed = false; };
 struct Transport {
@@ -18,6 +22,7 @@ struct Transport {
 	int reject_next = 0;     // number of upcoming send calls to reject
 	uint64_t calls = 0;
 	Log *log = 0;
+	Stats *st = 0;
 };
 static Transport *TR;
 
@@ -38,7 +43,7 @@ static int transport_send(void *ptr, const reply_data *rd, const message *msg) {
 	++r->sends;
 	if (!marked) pend("not-marked", "reply for id %llx is not marked as a reply (top bit of the first id byte clear)", (unsigned long long) id);
 	if (r->accepted) pend("second-reply", "transport is offered a second reply for id %llx after it accepted one", (unsigned long long) id);
-	if (t.reject_next > 0) { --t.reject_next; return -0x10; }
+	if (t.reject_next > 0) { --t.reject_next; if (t.st) t.st->hit("fault:send_rejected"); return -0x10; }
 	++r->accepted;
 	return 0;
 }
@@ -49,9 +54,13 @@ struct ReplyWorld : World {
 	const char *const *faultnames() const override { return FAULTS; }
 	const char *components_json() const override {
 		return "{\"real\":[\"mpt_message_id2buf\",\"mpt_message_buf2id\",\"mpt_reply_deferrable (context, conversion to reply/reply-data pointers, reply, defer, deferred handle, unref/addref)\",\"mpt_reply_set\",\"mpt_context_reply\"],"
+		       "\"real (layer L1)\":[\"mpt_stream_input: next (mpt_stream_poll), dispatch (mpt_stream_dispatch, id header split, reply context, default reply), mpt_stream_reply, encoder and decoder queues, mpt_stream_flush\"],"
+		       "\"stub (layer L1)\":[\"requester: reference COBS encoder/decoder, request table\",\"descriptor pair: simulated channels with segment cuts, short and EAGAIN writes\"],"
 		       "\"stub\":[\"transport = send callback accepting or rejecting per plan\",\"allocator (ledger + n-th allocation fails)\",\"per-request bookkeeping (accepted at most once, id, reply mark)\"]}";
 	}
 	void gen(Rng &r, Plan &p, int tier) override {
+		if (r.chance(1, 3)) { gen_stream(r, p, tier); return; }
+		p.set("layer", 0);
 		p.set("ctxlen", r.chance(1, 5) ? r.range(9, 20) : r.range(1, 8));
 		int nops = (int) r.range(1, tier ? 80 : 40);
 		bool allocf = r.chance(1, 4), rej = r.chance(1, 2);
@@ -67,6 +76,155 @@ struct ReplyWorld : World {
 			p.ops.push_back(op);
 		}
 	}
+	// ---- layer L1: a requester node and a responder built from the real mpt_stream_input on a simulated descriptor pair
+	void gen_stream(Rng &r, Plan &p, int tier) {
+		p.set("layer", 1);
+		p.set("idlen", r.range(1, 4));
+		p.set("framing", r.below(4));
+		static const int caps[] = {3, 16, 64, 4096};
+		p.set("chancap", r.pick(caps));
+		int nops = (int) r.range(1, tier ? 80 : 40); bool iof = r.chance(1, 2);
+		for (int i = 0; i < nops; ++i) {
+			Op op; unsigned k = (unsigned) r.below(12);
+			op.kind = k < 4 ? OP_REQ : k < 7 ? OP_DELIVER : k < 10 ? OP_SERVE : OP_FLUSH;
+			op.a = (int64_t) r.next(); op.b = r.below(6) | (r.below(5) << 8); op.c = r.chance(1, 3) ? 1 : r.chance(1, 2) ? 1000000 : r.range(1, 40);
+			if (iof && op.kind == OP_FLUSH && r.chance(1, 2)) { op.fault = r.chance(1, 2) ? FL_SHORT : FL_EAGAIN; op.fa = r.range(1, 5); }
+			if (iof && op.kind == OP_SERVE && r.chance(1, 4)) { op.fault = FL_ALLOC; op.fa = r.range(1, 4); }
+			p.ops.push_back(op);
+		}
+	}
+	struct SReq { uint64_t id; int behaviour; int replies = 0; int handled = 0; bool faulted = false; Bytes payload; };
+	struct Responder { std::vector<SReq> *reqs; unsigned idlen; Log *log; uint64_t calls = 0; };
+	static int responder_handler(void *arg, event *ev) {
+		Harness h;
+		Responder &R = *(Responder *) arg; ++R.calls;
+		if (!ev) return 0;
+		if (!ev->msg) { pend("bad-event", "stream input dispatched an event without message"); return 0; }
+		message m = *ev->msg; size_t len = mpt_message_length(&m); Bytes body(len); mpt_message_read(&m, len, body.data());
+		// which request is this? payloads are unique
+		SReq *q = 0; for (auto &r : *R.reqs) if (r.payload == body && !r.handled) { q = &r; break; }
+		if (!q) { for (auto &r : *R.reqs) if (r.payload == body) { q = &r; break; } }
+		if (!q) { pend("invented", "responder received a request nobody sent (%zu bytes)", len); return 0; }
+		if (q->handled) { pend("duplicate-request", "request %llx dispatched twice", (unsigned long long) q->id); return 0; }
+		q->handled = 1;
+		R.log->ev("    handle request id=%llx behaviour=%d reply-context=%s", (unsigned long long) q->id, q->behaviour, ev->reply ? "yes" : "no");
+		if ((q->id != 0) != (ev->reply != 0)) { pend("reply-context", "request with id %llx %s a reply context", (unsigned long long) q->id, ev->reply ? "got" : "did not get"); return 0; }
+		if (!ev->reply) return 0;
+		switch (q->behaviour) {
+		case 1: { Sut s; mpt_context_reply(ev->reply, 0, "%s", "done"); } return 0;
+		case 2: { int r1, r2; { Sut s; r1 = mpt_context_reply(ev->reply, 0, "%s", "first"); r2 = mpt_context_reply(ev->reply, 1, "%s", "second"); }
+			if (r1 >= 0 && r2 >= 0) pend("second-reply", "two explicit replies to request %llx were both accepted", (unsigned long long) q->id); return 0; }
+		case 3: return -3;      // handler fails without answering: the default reply carries the error
+		default: return 0;      // handler succeeds without answering: default reply
+		}
+	}
+	void exec_stream(const Plan &p, Log &log, Stats &st) {
+		unsigned idlen = (unsigned) std::min<int64_t>(std::max<int64_t>(p.get("idlen", 2), 1), 8);
+		int framing = (int) p.get("framing") & 3;
+		size_t chancap = (size_t) std::min<int64_t>(std::max<int64_t>(p.get("chancap", 4096), 1), 1 << 20);
+		int up = simio::new_chan(1 << 20), down = simio::new_chan(chancap);     // requester -> responder, responder -> requester
+		int sfd = simio::new_fd(up, down, O_RDWR | O_NONBLOCK);
+		static const int codes[] = {EncodingCobs, EncodingCobsInline, EncodingCobs | EncodingCompress, EncodingCobsInline | EncodingCompress};
+		input *in; { socket sk; sk._id = sfd; { Sut s; in = mpt_stream_input(&sk, stream::RdWr | stream::Write | stream::Buffer, codes[framing], idlen); } sk._id = -1; }
+		if (!in) fail("setup", "mpt_stream_input failed");
+		log.ev("reply L1 idlen=%u framing=%s chancap=%zu", idlen, ref::framing_name(framing), chancap);
+		st.hit("layer:L1");
+		std::vector<SReq> reqs; Responder R{&reqs, idlen, &log};
+		Bytes reply_stream; uint32_t serial = 1;
+		auto collect = [&]() { simio::Chan *c = simio::chan(down); simio::deliver(down, 1 << 20); while (!c->avail.empty()) { reply_stream.push_back(c->avail.front()); c->avail.pop_front(); } };
+		auto judge_replies = [&](bool final) {
+			// every complete frame on the way back is a reply to exactly one request
+			size_t b = 0; std::map<uint64_t, int> seen;
+			for (size_t i = 0; i < reply_stream.size(); ++i) if (!reply_stream[i]) {
+				Bytes msg; int v = ref::decode(framing, reply_stream.data() + b, i + 1 - b, msg); b = i + 1;
+				if (v != ref::WELL) fail("bad-frame", "responder wrote a malformed frame");
+				if (msg.size() < idlen) fail("bad-frame", "reply of %zu bytes is shorter than the %u byte id header", msg.size(), idlen);
+				if (!(msg[0] & 0x80)) fail("not-marked", "frame sent by the responder is not marked as a reply");
+				uint64_t id = msg[0] & 0x7f; for (unsigned k = 1; k < idlen; ++k) id = (id << 8) | msg[k];
+				SReq *q = 0; for (auto &r : reqs) if (r.id == id && r.id) { q = &r; break; }
+				if (!q) fail("foreign-id", "reply carries id %llx which no request used", (unsigned long long) id);
+				if (++seen[id] > 1) fail("second-reply", "request %llx was answered %d times", (unsigned long long) id, seen[id]);
+				if (!q->handled) fail("foreign-id", "reply for request %llx before it was dispatched", (unsigned long long) id);
+				// what the answer says: an explicit reply carries the handler's text, a default reply the answer header with the handler's result
+				Bytes body(msg.begin() + idlen, msg.end());
+				auto has = [&](const char *t) { size_t n = strlen(t); return std::search(body.begin(), body.end(), t, t + n) != body.end(); };
+				if (q->faulted) continue;        // answered while an allocation failed: which of the answers made it is not constrained
+				if (q->behaviour == 1 && !has("done")) fail("wrong-answer", "explicit reply to %llx does not carry the handler's text (%zu bytes)", (unsigned long long) id, body.size());
+				if (q->behaviour == 2 && !has("first")) fail("wrong-answer", "reply to %llx is not the first of the two answers given (%zu bytes)", (unsigned long long) id, body.size());
+				if (q->behaviour == 0 || q->behaviour == 3) {
+					Bytes want = {(uint8_t) msgtype::Answer, (uint8_t) (q->behaviour == 3 ? -3 : 0)};
+					if (body != want) fail("wrong-answer", "default reply to %llx is %zu bytes [%s], expected the answer header {%d,%d}", (unsigned long long) id, body.size(), hex(body, 12).c_str(), want[0], (int8_t) want[1]);
+				}
+			}
+			if (final) for (auto &r : reqs) if (r.id && r.handled && !r.faulted && !seen.count(r.id)) fail("no-reply", "request %llx was dispatched (behaviour %d) but never answered", (unsigned long long) r.id, r.behaviour);
+			if (final && b != reply_stream.size()) fail("bad-frame", "responder left an unterminated frame of %zu bytes on the wire", reply_stream.size() - b);
+		};
+		auto serve = [&](int64_t failn = 0) -> int {
+			int n; { Sut s(failn); n = in->next(POLLIN); if (g.fired) { st.hit("fault:allocfail_in_poll"); failn = 0; } }
+			int d, guard = 0;
+			do {
+				std::vector<int> before; for (auto &r : reqs) before.push_back(r.handled);
+				bool fired; { Sut s(failn); SUT_GUARD_ABORT(d = in->dispatch(responder_handler, &R)); fired = g.fired; }
+				check_pending();
+				if (fired) { st.hit("fault:allocfail_in_serve"); failn = 0; for (size_t k = 0; k < reqs.size(); ++k) if (reqs[k].handled && !before[k]) reqs[k].faulted = true; }
+			} while (d >= 0 && (d & 0x10000) && ++guard < 64);
+			log.ev("SERVE next=%d dispatch=%d", n, d);
+			return d;
+		};
+		auto flush = [&](int fault, int64_t fa) -> int {
+			simio::Fd *f = simio::get(sfd);
+			f->wfault = fault == FL_SHORT ? simio::F_SHORT : fault == FL_EAGAIN ? simio::F_EAGAIN : 0; f->wfa = fa;
+			int n; { Sut s; n = in->next(POLLOUT); }
+			f->wfault = 0;
+			log.ev("FLUSH%s -> %d", fault ? FAULTS[fault] : "", n);
+			collect();
+			return n;
+		};
+		for (const Op &op : p.ops) {
+			st.hit(std::string("op:") + OPS[op.kind]);
+			int outcome = 0;
+			switch (op.kind) {
+			case OP_REQ: {
+				if (reqs.size() >= 12) break;
+				unsigned sel = (unsigned) (op.b & 0xff) % 6;
+				uint64_t lim = (1ull << (8 * idlen - 1)) - 1;
+				uint64_t id = sel == 0 ? 0 : sel == 1 ? 1 : sel == 2 ? lim : 1 + ((uint64_t) op.a % lim);
+				bool dup = false; for (auto &r : reqs) if (r.id == id && id) dup = true;
+				if (dup) break;
+				SReq q; q.id = id; q.behaviour = (int) ((op.b >> 8) & 0xff) % 4;
+				q.payload = {0x04, 0x00}; for (int k = 0; k < 4; ++k) q.payload.push_back((uint8_t) (serial >> (8 * k))); ++serial;
+				size_t extra = (size_t) op.c % 30; for (size_t k = 0; k < extra; ++k) q.payload.push_back((uint8_t) (op.a >> (k % 8)));
+				Bytes msg(idlen); for (unsigned k = 0; k < idlen; ++k) msg[idlen - 1 - k] = (uint8_t) (id >> (8 * k));
+				msg.insert(msg.end(), q.payload.begin(), q.payload.end());
+				Bytes frame = ref::encode(framing, msg);
+				simio::Chan *c = simio::chan(up); for (uint8_t b : frame) c->wire.push_back(b);
+				reqs.push_back(q);
+				log.ev("REQUEST id=%llx behaviour=%d payload=%zu bytes", (unsigned long long) id, q.behaviour, q.payload.size());
+				outcome = 1;
+				break;
+			}
+			case OP_DELIVER: { size_t n = simio::deliver(up, (size_t) std::max<int64_t>(op.c, 1)); log.ev("DELIVER %zu", n); if (n == 1) st.hit("fault:single_byte_delivery"); else if (n) st.hit("fault:segment_cut"); outcome = n > 0; break; }
+			case OP_SERVE: outcome = serve(op.fault == FL_ALLOC ? std::max<int64_t>(op.fa, 1) : 0) >= 0; judge_replies(false); break;
+			case OP_FLUSH: if (op.fault) st.hit(std::string("fault:writev_") + FAULTS[op.fault]); flush(op.fault, op.fa); judge_replies(false); outcome = 1; break;
+			}
+			st.state(760 + op.kind, (int) std::min<size_t>(reqs.size(), 3) * 4 + (op.fault ? 2 : 0) + (idlen > 2), outcome);
+		}
+		// drain: everything is delivered, served and flushed without faults
+		simio::deliver(up, 1 << 20);
+		for (int i = 0; i < 200; ++i) {
+			size_t handled = 0; for (auto &r : reqs) handled += r.handled;
+			int d = serve(); flush(0, 0);
+			size_t handled2 = 0; for (auto &r : reqs) handled2 += r.handled;
+			if (handled2 == reqs.size() && d >= 0 && !(d & 0x10000)) { for (int k = 0; k < 4096 && flush(0, 0) > 0; ++k) {} break; }
+			if (i > 40 && handled == handled2) break;
+		}
+		for (auto &r : reqs) if (!r.handled) fail("request-lost", "request %llx was delivered completely but never dispatched", (unsigned long long) r.id);
+		collect();
+		judge_replies(true);
+		{ Sut s; in->unref(); }
+		if (ledger_live()) fail("leak", "%zu block(s) allocated after the stream input was released: %s", ledger_live(), ledger_describe().c_str());
+	}
+
 	static uint64_t pick_id(int64_t bits, unsigned w, unsigned sel) {
 		uint64_t lim = w == 0 ? 0 : (w >= 8 ? 0x7fffffffffffffffull : ((1ull << (8 * w - 1)) - 1)); // largest id that fits w bytes with the mark bit clear
 		switch (sel) {
@@ -78,7 +236,8 @@ struct ReplyWorld : World {
 		}
 	}
 	void exec(const Plan &p, Log &log, Stats &st) override {
-		Transport T; T.log = &log; TR = &T;
+		if (p.get("layer")) { exec_stream(p, log, st); return; }
+		Transport T; T.log = &log; T.st = &st; TR = &T;
 		size_t ctxlen = (size_t) std::min<int64_t>(std::max<int64_t>(p.get("ctxlen", 4), 1), 64);
 		metatype *ctx = 0; int ctx_refs = 0; bool transport_attached = true;
 		struct Handle { reply_context_detached *h; size_t req; };
